@@ -19,21 +19,11 @@ from nucs.solvers.backtrack_solver import BacktrackSolver
 from nucs.solvers.consistency_algorithms import CONSISTENCY_ALG_BC, CONSISTENCY_ALG_SHAVING, CONSISTENCY_ALG_FCTS
 
 
-class Timeout(Exception):
-    pass
-
-
-def _alarm(*_a):
-    raise Timeout()
+from harness.watchdog import Timeout, guarded as _guarded  # wall-clock trigger + deterministic confirmation (load-independent verdicts)
 
 
 def guarded(f, secs=5.0):
-    signal.signal(signal.SIGALRM, _alarm)
-    signal.setitimer(signal.ITIMER_REAL, secs)
-    try:
-        return f()
-    finally:
-        signal.setitimer(signal.ITIMER_REAL, 0)
+    return _guarded(f, secs, steps=6_000_000)
 
 
 ALGS = {"no_sub_cycle": ALG_NO_SUB_CYCLE, "scc": ALG_SCC, "affine_eq": ALG_AFFINE_EQ, "affine_geq": ALG_AFFINE_GEQ, "affine_leq": ALG_AFFINE_LEQ, "alldifferent": ALG_ALLDIFFERENT, "max_eq": ALG_MAX_EQ,
@@ -323,8 +313,14 @@ def run(arg, pid, tier, seed):
             ev += 1
             OBS.update(depth=0, calls=0, entailed=0, failed=0)
             try:
-                s = solver(pb, cfg)
-                got = guarded(lambda: sols(s))
+                _s = [None]
+
+                def enumerate_all(cfg=cfg):
+                    _s[0] = solver(pb, cfg)  # a fresh solver: the watchdog may run this twice
+                    return sols(_s[0])
+
+                got = guarded(enumerate_all)
+                s = _s[0]
             except Timeout:
                 if pid in ("C04",):
                     report("C04.termination", pb, cfg, "find_all did not return within 5s")
